@@ -145,6 +145,10 @@ def _():
     d = XmlParser().parse_string(x, SDict())
     v = [v for k, v in d.items() if str(k).endswith("_b")][0]
     assert "_attributes" not in v, v
+@w("D37")
+def _():
+    r = readtext("l (1 2 3); m $l; n $m; d $n[1]; e $m[1];")
+    assert r["d"] == 2 and r["e"] == 2, r
 
 if __name__ == "__main__":
     sel = sys.argv[1:] or list(W)
